@@ -39,6 +39,10 @@ let impl (fn : string) (a : string array) : string option =
   | "CutSuffix" ->
     let f r = res_map (fun (sl, fl) -> sslice sl ^ ":" ^ sbool fl) r in
     Some (both (f (i_cut_suffix_str (s 0) (s 1))) (f (i_cut_suffix_byt (s 0) (s 1))))
+  | "Count" -> Some (both (res_z (i_count_str (s 0) (s 1))) (res_z (i_count_byt (s 0) (s 1))))
+  | "Cut" ->
+    let f r = res_map (fun ((b, af), fl) -> sslice b ^ ":" ^ sslice af ^ ":" ^ sbool fl) r in
+    Some (both (f (i_cut_str (s 0) (s 1))) (f (i_cut_byt (s 0) (s 1))))
   (* unexported strategies (hooks under verif_internals): "str-result|byt-result" *)
   | "i.hasPrefixUnicode" ->
     let f r = res_map (fun (m, e) -> sbool m ^ ":" ^ sbool e) r in
